@@ -742,6 +742,91 @@ def order_preserved(prog: Program) -> RuleResult:
         raise AnalysisError(f"ORDER-PRESERVED: only {n} sorting sites found in model/synteny.py")
     return res
 
+
+# ---------------------------------------------------------------------------
+# parsed mappings come from the dictionary alone
+
+
+def field_source(prog: Program) -> RuleResult:
+    res = RuleResult(
+        "FIELD-SOURCE",
+        "in every _from_dict, a mapping field that the dictionary provides is exactly the parse of `data[key]`: the "
+        "dictionary handed to parse_tree_mapping / parse_synteny_mapping is `data[key]` itself (no filtered or "
+        "rebuilt copy - an entry such as the root synteny must not be dropped), and the parsed mapping is not "
+        "merged with another source (`{**parsed, **inferred}` lets a name-based guess override an explicit "
+        "assignment)",
+    )
+    model = "model.reconciliation"
+    mod = prog.module(model)
+    n = 0
+    for cname in ("ReconciliationInput", "SuperReconciliationInput", "ReconciliationOutput", "SuperReconciliationOutput"):
+        cls = prog.cls(model, cname)
+        fn = method_def(cls, "_from_dict")
+        if fn is None:
+            continue
+        data = func_params(fn)[1] if len(func_params(fn)) > 1 else "data"
+        for call in walk_no_nested(fn):
+            if not (isinstance(call, ast.Call) and dotted(call.func) in ("parse_tree_mapping", "parse_synteny_mapping")):
+                continue
+            n += 1
+            src = call.args[-1] if call.args else None
+            key = None
+            if isinstance(src, ast.Subscript) and dotted(src.value) == data and isinstance(src.slice, ast.Constant):
+                key = src.slice.value
+            construct = f"{model}:{cname}._from_dict/{dotted(call.func)}[{key or short(src, 30)}]"
+            problems = []
+            if key is None:
+                inner_keys = [
+                    x.slice.value for x in ast.walk(src)
+                    if isinstance(x, ast.Subscript) and dotted(x.value) == data and isinstance(x.slice, ast.Constant)
+                ] + [
+                    x.args[0].value for x in ast.walk(src)
+                    if isinstance(x, ast.Call) and isinstance(x.func, ast.Attribute) and x.func.attr == "get" and dotted(x.func.value) == data and x.args and isinstance(x.args[0], ast.Constant)
+                ]
+                if isinstance(src, ast.Call) and isinstance(src.func, ast.Attribute) and src.func.attr == "get" and dotted(src.func.value) == data:
+                    pass  # data.get(key, {}) : the dictionary's own entry or nothing
+                elif inner_keys:
+                    problems.append(f"the parser is given `{short(src, 70)}`, a rebuilt copy of data[{inner_keys[0]!r}] (entries can be dropped or altered), not the entry itself")
+                else:
+                    raise AnalysisError(f"{construct}: source of the parsed mapping not recognised")
+            par = mod.parent(call)
+            if isinstance(par, ast.Dict):
+                pos = next((i for i, (k, v) in enumerate(zip(par.keys, par.values)) if k is None and v is call), None)
+                if pos is not None and pos < len(par.values) - 1:
+                    problems.append(f"the parsed mapping is merged into `{short(par, 80)}` BEFORE another source: later entries win, so an explicit entry of the dictionary can be overridden")
+            if isinstance(par, ast.BinOp) and isinstance(par.op, ast.BitOr) and par.left is call:
+                problems.append(f"the parsed mapping is the left operand of `{short(par, 80)}`: the right operand wins on common keys")
+            if problems:
+                res.fail(construct, "; ".join(problems), mod, call)
+            else:
+                res.ok(construct, f"parse of `{short(src, 40)}` alone")
+    res.floor(4)
+    return res
+
+
+def sort_key_aligned(prog: Program) -> RuleResult:
+    res = RuleResult(
+        "SORT-KEY-ALIGNED",
+        "the natural-sort key of sort_synteny keeps every part of the digit/non-digit split, empty ones included: "
+        "`re.split` with a capture group alternates text and digit parts starting with a (possibly empty) text part, "
+        "so position i has the same type in every key; filtering parts out misaligns them and comparing a name that "
+        "starts with a digit with one that starts with a letter raises TypeError",
+    )
+    modname = "model.synteny"
+    mod = prog.module(modname)
+    fn = prog.func(modname, "sort_synteny")
+    comps = [c for c in ast.walk(fn) if isinstance(c, (ast.ListComp, ast.GeneratorExp)) and any(
+        isinstance(x, ast.Call) and isinstance(x.func, ast.Attribute) and x.func.attr == "isdigit" for x in ast.walk(c.elt))]
+    if len(comps) != 1:
+        raise AnalysisError("sort_synteny: key comprehension with `.isdigit()` not found")
+    comp = comps[0]
+    construct = f"{modname}:sort_synteny/key"
+    if any(g.ifs for g in comp.generators):
+        res.fail(construct, f"the key drops parts of the split (`{short(comp.generators[0].ifs[0])}`): text and digit positions no longer line up between names", mod, comp)
+    else:
+        res.ok(construct, short(comp, 90))
+    return res
+
 # ---------------------------------------------------------------------------
 # class dispatch on the presence of a key
 
@@ -1445,6 +1530,8 @@ def cli_cost_source(prog: Program) -> RuleResult:
 
 
 RULES = {
+    "FIELD-SOURCE": field_source,
+    "SORT-KEY-ALIGNED": sort_key_aligned,
     "COST-TRUTH": cost_truth,
     "ORDER-PRESERVED": order_preserved,
     "DISPATCH-KEYS": dispatch_keys,
